@@ -41,6 +41,10 @@ def adi_cases(seed, count, tag, max_side=6):
         else:
             c["Ka"] = [rng.randint(1, 4) for _ in range(n)]
             kmax = 4
+        # the same problem in other units (diffusivity x 2^-ksc, time step x 2^ksc, exact): SI-like
+        # magnitudes (K ~ 1e-9 .. 1e-12 with a huge time step) and the opposite
+        if rng.random() < 0.4:
+            c["ksc"] = rng.choice([30, 36, 40, 45, -20, -30])
         D = 8 * q * dy * dy * dx * dx
         big = D + 2 * p * max(dy, dx) ** 2 * 4 * kmax
         # every partial sum of a residual (three products on each side) must stay below 2^31
